@@ -23,7 +23,7 @@ ASSUMPTIONS = [
 REQUIRED_COUNTERS = {f"batches_{k}": 20 for k in G.SAMPLER_KINDS}
 REQUIRED_COUNTERS.update({"nonaligned_spaces": 50, "multi_call_objects": 50})
 SHARDS = {"quick": 16, "thorough": 16}
-SHARD_WATCHDOG = {"quick": 900, "thorough": 5400}
+SHARD_WATCHDOG = {"quick": 1500, "thorough": 10800}
 
 
 def gen_cases(tier, seed):
@@ -62,7 +62,7 @@ def run_case(desc, ctx):
         done = 0
         for call in range(ncalls):
             try:
-                with quiet(), G.time_limit(90):
+                with quiet(), G.time_limit(G.LIMIT):
                     batch = sampler.sample(space, pts, losses)
             except G.Timeout:
                 c[f"rejected_timeout_{kind}"] = c.get(f"rejected_timeout_{kind}", 0) + 1
